@@ -90,3 +90,7 @@ Example C16_multibyte_trip_id :
   trip_id_origin ("000150_A" ++ String "194" (String "183" (String "194" (String "183" ""))) ++ "N") = Some 150 /\
   trip_id_origin ("197778_A" ++ String "226" (String "130" "") ++ ".S01R") = None.
 Proof. vm_compute. repeat split. Qed.
+(* every character of the free positions consumes between one and four bytes of the id, never more than there are *)
+Theorem C16_characters_consume_bytes : forall l r, drop_char l = Some r -> (List.length r < List.length l)%nat /\ (List.length l <= List.length r + 4)%nat.
+Proof. exact drop_char_shorter. Qed.
+Print Assumptions C16_characters_consume_bytes.
